@@ -234,6 +234,8 @@ class Real:
             return "ok " + C.flist(out), [float(x) for x in out]
         except ValueError as e:
             return self._pyerr(e), None
+        except Exception as e:  # noqa
+            return f"raised {type(e).__name__}", None
 
     def flathomogen(self, idx, vals, maxnan):
         np = self.np
@@ -242,6 +244,8 @@ class Real:
             return "ok " + C.flist(out), [float(x) for x in out]
         except ValueError as e:
             return self._pyerr(e), None
+        except Exception as e:  # noqa
+            return f"raised {type(e).__name__}", None
 
     SENT = 12345.678
 
@@ -533,7 +537,13 @@ def body(ctx):
         vals = [gen_value(rng, rng.choice(["pos", "dyadic", "unif"])) for _ in range(n)]
         if len(set(vals)) < 2:
             continue
-        g = float(real.signatures.goue(np.array(idx), np.array(vals)))
+        try:
+            g = float(real.signatures.goue(np.array(idx), np.array(vals)))
+        except Exception as e:  # noqa
+            ctx.count(("goue", tuple(idx), C.flist(vals)), False, "goue/raised")
+            ctx.finding("goue/raises", "goue raises on a non-decreasing aggregation index",
+                        {"fn": "goue", "aggindex": idx, "values": vals, "error": f"{type(e).__name__}: {str(e)[:80]}"})
+            continue
         means = {}
         for (a, b) in runs_of(idx):
             m = fsum_exact(vals[a:b]) / (b - a)
@@ -612,26 +622,55 @@ def m2d_case(ctx, real, add, y0, m0, vals, interp, minthr):
     if not complete:
         return
     # ---- oracle: one value per calendar day, monthly sums = monthly inputs
+    v = m2d_violation(y0, m0, vals, out, ymd)
+    if v is None:
+        return
+    pred, at, detail = v
+    mini = dict(case, **detail)
+    # shrink: a 2..3-month window around the offending month, then small integer values
+    months = month_seq(y0, m0, len(vals))
+    cands = []
+    for lo, hi in ((at, at + 2), (at - 1, at + 1), (at - 1, at + 2)):
+        if 0 <= lo and hi <= len(vals) and hi - lo >= 2 and hi - lo < len(vals):
+            w = vals[lo:hi]
+            cands.append((months[lo][0], months[lo][1], [float(round(x)) % 50 + 1 for x in w]))
+            cands.append((months[lo][0], months[lo][1], w))
+    for (yy, mm, w) in cands:
+        try:
+            o2, ymd2 = run_m2d(real, yy, mm, w, interp, 0.0)
+        except Exception:  # noqa
+            continue
+        v2 = m2d_violation(yy, mm, w, o2, ymd2)
+        if v2 is not None and v2[0] == pred:
+            mini = {"fn": "monthly2daily", "year": yy, "month": mm, "values": w, "interpolation": interp,
+                    "minthreshold": 0.0, **v2[2]}
+            break
+    what = {"not_one_value_per_calendar_day": "the daily index is not every calendar day of the covered months, once, in order",
+            "missing_day": "a day of a complete non-negative series is missing",
+            "monthly_sum": "the daily values of a month do not add up to the monthly input"}[pred]
+    ctx.finding(f"monthly2daily/{interp}/{pred}", what, mini)
+
+
+def m2d_violation(y0, m0, vals, out, ymd):
+    """independent statement of the monthly2daily clause on a result of the real code -> (predicate, month position, detail) | None"""
     months = month_seq(y0, m0, len(vals))
     want_days = [(y, m, d) for (y, m) in months for d in range(1, calendar.monthrange(y, m)[1] + 1)]
     if ymd != want_days:
-        ctx.finding(f"monthly2daily/{interp}/not_one_value_per_calendar_day",
-                    "the daily index is not every calendar day of the covered months, once, in order", case)
-        return
+        k = next((i for i, (a, b) in enumerate(zip(ymd, want_days)) if a != b), min(len(ymd), len(want_days)))
+        ym = want_days[min(k, len(want_days) - 1)][:2]
+        return "not_one_value_per_calendar_day", months.index(ym), {"days_returned": len(ymd), "days_expected": len(want_days)}
     pos = 0
-    for (y, m), v in zip(months, vals):
+    for j, ((y, m), v) in enumerate(zip(months, vals)):
         nd = calendar.monthrange(y, m)[1]
         seg = out[pos:pos + nd]
         pos += nd
         if any(isnan(s) for s in seg):
-            ctx.finding(f"monthly2daily/{interp}/missing_day", "a day of a complete non-negative series is missing", dict(case, at=[y, m]))
-            return
+            return "missing_day", j, {"at": [y, m]}
         tot = float(fsum_exact(seg))
         scale = max(abs(v), max(abs(s) for s in seg) * nd, 1e-300)
         if abs(tot - v) > 1e-9 * scale:
-            ctx.finding(f"monthly2daily/{interp}/monthly_sum", "the daily values of a month do not add up to the monthly input",
-                        dict(case, at=[y, m], monthly=v, total=tot))
-            return
+            return "monthly_sum", j, {"at": [y, m], "monthly": v, "total": tot}
+    return None
 
 
 def finish(ctx, reqs, impls, cases, tags, cmpmode):
